@@ -280,6 +280,15 @@ func c11compare(l, r *c11side, so gedcom.SimilarityOptions, jobs, gmp int) gedco
 	opts := gedcom.NewIndividualNodesCompareOptions()
 	opts.SimilarityOptions = so
 	opts.Jobs = jobs
+	if jobs%2 == 0 { // as cmd/gedcom/diff.go does: a progress notifier drained by the caller
+		ch := make(chan gedcom.Progress)
+		opts.Notifier = ch
+		opts.NotifierStep = 1
+		go func() {
+			for range ch {
+			}
+		}()
+	}
 	return l.indis.Compare(r.indis, opts)
 }
 
